@@ -220,17 +220,11 @@ class World:
             raise SkipOp(f"no node handle {ref['h']}")
         o = h.obj
         for fname, idx in ref.get("path", ()):
-            if not any(f.name == fname for f in U.CHILD_FIELDS.get(cname(o), ())):
+            # the same notion of child positions as pick_ref / reachable (also for node classes outside the universe)
+            nxt = next((c for f, i, c in children_of(o) if f == fname and i == idx), None)
+            if nxt is None:
                 raise SkipOp("bad path")
-            v = getattr(o, fname)
-            if idx is None:
-                if v is None or isinstance(v, tuple):
-                    raise SkipOp("bad path")
-                o = v
-            else:
-                if not isinstance(v, tuple) or idx >= len(v):
-                    raise SkipOp("bad path")
-                o = v[idx]
+            o = nxt
         return o
 
     def roots(self) -> list[Any]:
